@@ -33,10 +33,10 @@ impl<ElemT> TokenRing<ElemT> {
     /// After reaching the maximum token it wraps around and continues from the lowest one.
     /// The iterator visits each member once, it doesn't have infinite length.
     pub fn ring_range_full(&self, token: Token) -> impl Iterator<Item = &(Token, ElemT)> {
-        let binary_search_index: usize = match self.ring.binary_search_by(|e| e.0.cmp(&token)) {
-            Ok(exact_match_index) => exact_match_index,
-            Err(first_greater_index) => first_greater_index,
-        };
+        // Index of the first member whose token is not lower than `token`. Unlike
+        // `binary_search`, this is deterministic when several members share a token:
+        // the walk always starts at the first of them.
+        let binary_search_index: usize = self.ring.partition_point(|e| e.0 < token);
 
         self.ring[binary_search_index..]
             .iter()
